@@ -209,6 +209,20 @@ let handle (fields : string list) : string * string =
       | None -> "ok"
       | Some i -> Printf.sprintf "fail:monitor-rejects-event-%d" (int_of_nat i) in
     (m, verdict)
+  | "procrelay" :: bits :: redir :: idle :: live :: items :: impl :: [] ->
+    (* C06 through the packet loop: what the host received must be the declared payloads, in order *)
+    let cfg = parse_cfg bits redir idle in
+    let live = if live = "-" then [] else List.map bytes_of_hex (split_on ',' live) in
+    let items = Model.resolve_dials live cfg Model.tstate0 (parse_items items) in
+    let mevs = Model.run cfg items in
+    let m = obs_of_events mevs (int_of_nat (Model.consumed cfg items)) in
+    let sent = hex_of_bytes (List.concat (List.filter_map (function ToHost b -> Some b | _ -> None) mevs)) in
+    let got = (match List.find_opt (fun t -> String.length t > 2 && String.sub t 0 2 = "H:") (split_on ' ' impl) with
+        | Some t -> let v = String.sub t 2 (String.length t - 2) in if v = "-" then "" else v
+        | None -> "?") in
+    (m, if got = sent then (if m = impl then "ok" else "fail:packet-loop-differs")
+        else if String.length got = String.length sent then "fail:host-received-the-bytes-in-another-order-or-altered"
+        else "fail:host-received-fewer-or-more-bytes-than-sent")
   | "process16" :: bits :: redir :: idle :: live :: items :: impl :: [] ->
     let cfg = parse_cfg bits redir idle in
     let live = if live = "-" then [] else List.map bytes_of_hex (split_on ',' live) in
@@ -525,7 +539,12 @@ let handle (fields : string list) : string * string =
     let to_b str = List.map (fun c -> byte_of_int (Char.code c)) (List.of_seq (String.to_seq str)) in
     let shadowed = m.m_ntlm && valid = "basic" &&
                    List.exists (fun v -> Model.contains_sub (to_b "NTLM") v || Model.contains_sub (to_b "Negotiate") v) vals in
-    (mo, if valid <> "-" && not openid_only && not reached
+    (* the handler was reached over the NTLM route although the messages on this connection are not a
+       complete exchange with correct credentials (the harness knows which sequences are): whatever the
+       authentication service answered, it was not answering for this connection *)
+    let foreign_ntlm = reached && not openid_only && route = RNtlm && valid <> "ntlm" in
+    (mo, if foreign_ntlm then "fail:ntlm-accepted-without-an-exchange-on-this-connection"
+         else if valid <> "-" && not openid_only && not reached
          then (if shadowed then "fail:route-shadowing" else "fail:confirmed-credentials-refused")
          else if mo = impl then "ok"
          else if reached then "fail:handler-reached-without-confirmed-credentials"
@@ -580,6 +599,15 @@ let handle (fields : string list) : string * string =
     (m, if m = impl then "ok"
         else if field "D=" impl <> field "D=" m || field "O=" impl <> Some "O=0" then "fail:backend-connection-the-specification-forbids"
         else "fail:tunnel-differs-from-wired-model")
+  | "addrbind" :: verify :: _transport :: tokip :: presenting :: host :: impl :: [] ->
+    (* C04 at the gateway: the token's address against the address of the request that presents it *)
+    let h = bytes_of_hex host in
+    let t = { t_target = h; t_remote = bytes_of_hex tokip; t_user = bytes_of_hex "626f62" } in
+    let ok = Model.wired_policy true (bool_of verify) (bytes_of_hex "616e79") [] t (bytes_of_hex presenting) h in
+    let m = if ok then "channel=0 dials=1" else Printf.sprintf "channel=%d dials=0" (int_of_n Model.e_PROXY_RAP_ACCESSDENIED) in
+    (m, if m = impl then "ok"
+        else if ok then "fail:refused-from-the-issuing-address"
+        else "fail:channel-created-from-another-address")
   | "pairing" :: same :: impl :: [] ->
     let c = parse_cfg "10101" "0000000" "0" in
     let one = n_of_int 1 and two = n_of_int 2 in
